@@ -140,4 +140,77 @@ def CprLine.quietOther (endRe : Re) : CprLine → Bool
 
 def cprTextOf (ls : List CprLine) : Text := join ['\n'] (ls.map (·.text))
 
+/-! ### a text holding all three kinds of information -/
+
+/-- a line of a text: a licence tag line, a contributor tag line, a copyright notice line, or a line that holds
+    no information -/
+inductive InfoLine where
+  | lic (s : TagLineSpec)
+  | con (s : TagLineSpec)
+  | cpr (x : Text × CPat × Text) (y : YearForm) (h pre trail : Text)
+  | other (l : Text)
+
+def InfoLine.text : InfoLine → Text
+  | .lic s => s.line Generated.licenseTag
+  | .con s => s.line Generated.contributorTag
+  | .cpr x y h pre trail => pre ++ builtLine x.1 y h ++ trail
+  | .other l => l
+
+def InfoLine.licValue : InfoLine → Option Text
+  | .lic s => some s.v
+  | _ => none
+
+def InfoLine.conValue : InfoLine → Option Text
+  | .con s => some s.v
+  | _ => none
+
+def InfoLine.notice : InfoLine → Option Text
+  | .cpr x y h _ _ => some (builtLine x.1 y h)
+  | _ => none
+
+/-- the line as the licence reader / the contributor reader / the copyright reader sees it -/
+def InfoLine.forLic : InfoLine → TextLine
+  | .lic s => .tagged s
+  | l => .free l.text
+
+def InfoLine.forCon : InfoLine → TextLine
+  | .con s => .tagged s
+  | l => .free l.text
+
+def InfoLine.forCpr : InfoLine → CprLine
+  | .cpr x y h pre trail => .notice x y h pre trail
+  | l => .other l.text
+
+/-- **The hypotheses of `C02_extract_exact`, line by line.**  A licence line satisfies `tagLineOK` for the licence
+    tag, holds no `SPDX-FileContributor[ \t]`, no copyright notice, no line boundary and no `REUSE-IgnoreStart`;
+    likewise a contributor line; a notice line satisfies the hypotheses of `C02_copyright_lines` and holds neither
+    tag; any other line holds neither tag and no notice. -/
+def InfoLine.ok (endRe : Re) (l : InfoLine) : Bool :=
+  l.forLic.ok endRe Generated.licenseTag && l.forCon.ok endRe Generated.contributorTag &&
+  l.forCpr.ok endRe && l.forCpr.quietOther endRe && (findSub Generated.ignoreStart l.text).isNone
+
+/-- the same with purely syntactic conditions (no run of the matcher): the trail of a tag line / of a notice line is
+    the given sequence of listed terminators and blanks, values and holders are tail-safe, and the lines that are to
+    hold no notice hold none of the heads of the copyright patterns (`headFree`) -/
+def InfoLine.syn (endRe : Re) (l : InfoLine) (pieces : List Text) : Bool :=
+  (match l with
+   | .lic s => tagLineSyn endRe Generated.licenseTag s pieces && tagFreeLine Generated.contributorTag l.text &&
+       headFree l.text
+   | .con s => tagLineSyn endRe Generated.contributorTag s pieces && tagFreeLine Generated.licenseTag l.text &&
+       headFree l.text
+   | .cpr x y h pre trail => decide (x ∈ prefixShapes) && WFNoticeSyn endRe x y h pre trail pieces &&
+       isStripped (builtLine x.1 y h) &&
+       tagFreeLine Generated.licenseTag l.text && tagFreeLine Generated.contributorTag l.text
+   | .other t => tagFreeLine Generated.licenseTag t && tagFreeLine Generated.contributorTag t && headFree t) &&
+  noBreakB l.text && (findSub Generated.ignoreStart l.text).isNone
+
+def infoTextOf (ls : List InfoLine) : Text := join ['\n'] (ls.map (·.text))
+
+/-- what is planted in the text: the licence values, the notices, the contributor values — each as a set in order
+    of first occurrence -/
+def plantedInfo (ls : List InfoLine) : Extracted :=
+  { lic := dedup (ls.filterMap (·.licValue))
+    cpr := dedup (ls.filterMap (·.notice))
+    con := dedup (ls.filterMap (·.conValue)) }
+
 end Spec
